@@ -383,6 +383,7 @@ func sumAsserts(rs []*HarnessResult) int {
 
 func buildEvidence(prop, tier string, seed int64, hs []*Harness, rs []*HarnessResult, confN, replays, nviol, nknown, nunconf int, wall, loadT time.Duration) map[string]interface{} {
 	paths, instr, asserts, proved, unknown, aborts, panics, dead := 0, int64(0), 0, 0, 0, 0, 0, 0
+	implicit := int64(0)
 	var st SolverStats
 	funcs := map[string]bool{}
 	var samples []interface{}
@@ -397,6 +398,7 @@ func buildEvidence(prop, tier string, seed int64, hs []*Harness, rs []*HarnessRe
 		aborts += r.Aborts
 		panics += r.Panics
 		dead += r.Dead
+		implicit += r.Implicit
 		addStats(&st, &r.Solver)
 		for f := range r.Funcs {
 			if !strings.Contains(f, "Verif") && !strings.Contains(f, "verif") {
@@ -441,6 +443,7 @@ func buildEvidence(prop, tier string, seed int64, hs []*Harness, rs []*HarnessRe
 		"functions_encoded":             fl,
 		"harnesses":                     perH,
 		"obligations":                   asserts,
+		"implicit_safety_conditions":    implicit,
 		"unsat":                         proved,
 		"unknown":                       unknown,
 		"paths_not_decided":             aborts,
